@@ -218,6 +218,29 @@ def tlc_trace(module, cfg, trace, workdir, *, timeout=900, mem="4g"):
     return r
 
 
+def split_trace(path, max_events=20000):
+    """Cuts a long trace at behaviour boundaries into files of about max_events events (trace validation is linear in the trace but
+    TLC keeps every state: very long traces are validated piecewise)."""
+    events = read_ndjson(path)
+    if len(events) <= max_events:
+        return [path]
+    starts = split_behaviours(events) + [len(events)]
+    out, cur_start, n = [], 0, 0
+    for i in range(len(starts) - 1):
+        if starts[i + 1] - cur_start > max_events and starts[i] > cur_start:
+            out.append((cur_start, starts[i]))
+            cur_start = starts[i]
+    out.append((cur_start, len(events)))
+    files = []
+    for k, (a, b) in enumerate(out):
+        f = "%s.part%d" % (path, k + 1)
+        with open(f, "w") as fh:
+            for e in events[a:b]:
+                fh.write(json.dumps(e) + "\n")
+        files.append(f)
+    return files
+
+
 def split_behaviours(events):
     """Indices (0-based) at which a new behaviour starts (reset events)."""
     return [i for i, e in enumerate(events) if e.get("op", {}).get("o") == "reset"
